@@ -18,7 +18,7 @@ for name in sorted(os.listdir(os.path.join(here, 'seeded'))):
             ids.append(tok)
     if meta.get('checks'):
         ids = meta['checks']
-    wt = '/tmp/wt_seedcheck'
+    wt = os.environ.get('SEEDCHECK_WT', '/tmp/wt_seedcheck')
     subprocess.run([os.path.join(here, 'tools', 'mkworktree.sh'), wt], stdout=subprocess.DEVNULL, check=True)
     ap = subprocess.run(['git', '-C', wt, 'apply', os.path.join(d, 'patch.diff')], stderr=subprocess.PIPE, text=True)
     if ap.returncode != 0:
